@@ -713,6 +713,28 @@ def text_stream_declaration_check() -> List[C.Failing]:
     return out
 
 
+def invalid_bytes_file_check() -> List[C.Failing]:
+    """(session 6, found by C20's thorough tier) an XML FILE with a byte that is invalid in the document's encoding: reading from a
+    file (path or open file object) lxml reports it as an I/O error (OSError), not as XMLSyntaxError - it leaves the failsafe reader."""
+    c03._quiet()
+    import tempfile, shutil
+    from basyx.aas.adapter.xml import read_aas_xml_file
+    out: List[C.Failing] = []
+    d = tempfile.mkdtemp(prefix="verif-c09-")
+    try:
+        p = os.path.join(d, "x.xml")
+        open(p, "wb").write(b'<aas:environment xmlns:aas="https://admin-shell.io/aas/3/0"><aas:submodels><aas:submodel><aas:id>urn:\xff</aas:id>'
+                            b"</aas:submodel></aas:submodels></aas:environment>")
+        try:
+            list(read_aas_xml_file(p, failsafe=True))
+        except Exception as e:   # noqa
+            out.append(C.Failing(f"failsafe:xml:file-with-invalid-bytes:raises:{type(e).__name__}", "an XML file with a byte that is invalid in its encoding, "
+                                 f"read from its path: the failsafe reader raised {type(e).__name__}", {"invalid_bytes_file": True}))
+    finally:
+        shutil.rmtree(d, ignore_errors=True)
+    return out
+
+
 def deep_nesting_check() -> List[C.Failing]:
     """(round 8, named by a seeding agent) a WELL-FORMED document may be nested deeper than the interpreter follows (collections
     within collections; XML has no such limit in lxml's parser, JSON has): failsafe reading does not raise, strict reading raises a
@@ -798,6 +820,7 @@ def oracle(ctx: C.Ctx, cov: C.Coverage, n: Optional[int] = None, seed: Optional[
     out += [f for f in blank_text_check() if f.sig not in {g.sig for g in out}]
     out += [f for f in deep_nesting_check() if f.sig not in {g.sig for g in out}]
     out += [f for f in text_stream_declaration_check() if f.sig not in {g.sig for g in out}]
+    out += [f for f in invalid_bytes_file_check() if f.sig not in {g.sig for g in out}]
     return out
 
 
@@ -988,6 +1011,8 @@ def search(ctx: C.Ctx, disagreements, broken) -> List[C.Failing]:
 
 
 def replay(case) -> Optional[C.Failing]:
+    if isinstance(case, dict) and "invalid_bytes_file" in case:
+        return (invalid_bytes_file_check() or [None])[0]
     if isinstance(case, dict) and "text_stream_declaration" in case:
         fs_ = [f for f in text_stream_declaration_check() if f.case == case]
         return fs_[0] if fs_ else None
